@@ -20,6 +20,9 @@ import (
 type Client struct {
 	HC *http1.HostClient
 	D  *sconn.Dialer
+	// Resp, when set, is the one Response object used for every Do (an application that keeps its
+	// request and response objects instead of acquiring them per call); nil = a pooled one per call.
+	Resp *protocol.Response
 }
 
 // New builds a HostClient for example.com:80 with the scripted dialer.
@@ -46,8 +49,11 @@ type RespObs struct {
 // Do performs one exchange and collects the observation. In stream mode the
 // body stream is drained and closed.
 func (c *Client) Do(req *protocol.Request) (o RespObs) {
-	resp := protocol.AcquireResponse()
-	defer protocol.ReleaseResponse(resp)
+	resp := c.Resp
+	if resp == nil {
+		resp = protocol.AcquireResponse()
+		defer protocol.ReleaseResponse(resp)
+	}
 	defer func() {
 		if r := recover(); r != nil {
 			o.Panic = fmt.Sprintf("%v\n%s", r, debug.Stack())
